@@ -5,4 +5,4 @@
 #include <vector>
 // verdict: 0 valid, 1 invalid, 2 unsupported
 struct LzResult { int verdict = 1; std::vector<uint8_t> out; size_t consumed = 0; std::string why; int members = 0; };
-LzResult ref_lzip(const std::vector<uint8_t> &f, bool concatenated);
+LzResult ref_lzip(const std::vector<uint8_t> &f, bool concatenated, bool ignore_crc = false);
